@@ -280,48 +280,6 @@ static RCP<const Basic> teval(const verif::Sexp &e)
     return verif::eval_recipe(e);
 }
 
-// run f in a forked child that streams text through a pipe; returns the text plus the way it ended
-static std::string run_streaming(const std::function<void()> &f, unsigned timeout_s)
-{
-    int fd[2];
-    if (pipe(fd) != 0)
-        return "PIPEFAIL";
-    fflush(stdout);
-    pid_t pid = fork();
-    if (pid == 0) {
-        close(fd[0]);
-        alarm(timeout_s);
-        struct rlimit rl;
-        rl.rlim_cur = rl.rlim_max = 0;
-        setrlimit(RLIMIT_CORE, &rl);
-        g_fd = fd[1];
-        try {
-            f();
-        } catch (const Stop &) {
-        } catch (...) {
-            emit("UNCAUGHT\t");
-        }
-        close(fd[1]);
-        _exit(0);
-    }
-    close(fd[1]);
-    std::string out;
-    char buf[65536];
-    ssize_t r;
-    while ((r = read(fd[0], buf, sizeof buf)) > 0)
-        out.append(buf, (size_t)r);
-    close(fd[0]);
-    int status = 0;
-    waitpid(pid, &status, 0);
-    if (WIFSIGNALED(status)) {
-        int sig = WTERMSIG(status);
-        if (sig == SIGALRM)
-            return out + "HANG";
-        return out + "CRASH:" + std::to_string(sig);
-    }
-    return out;
-}
-
 static void mode_trace(const std::string &recipe)
 {
     verif::Sexp s = verif::parse_sexp(recipe);
@@ -521,25 +479,90 @@ static std::string mode_value(const std::string &body)
     return o.str();
 }
 
+static void process_line(const std::string &line)
+{
+    if (line.size() < 2) {
+        emit("BADLINE");
+        return;
+    }
+    std::string body = line.substr(2);
+    try {
+        if (line[0] == 'T')
+            mode_trace(body);
+        else if (line[0] == 'P') {
+            g_calls.clear();
+            g_calls_out.clear();
+            emit(mode_perm(body));
+        } else if (line[0] == 'V')
+            emit(mode_value(body));
+        else
+            emit("BADLINE");
+    } catch (const Stop &) {
+    } catch (...) {
+        emit("UNCAUGHT");
+    }
+}
+
+// All input lines are processed in ONE forked child that streams one output line per input line
+// (fork is expensive here); when the child dies on a line, that line ends with CRASH:<sig> / HANG
+// and a fresh child resumes at the next line.
 int main()
 {
+    std::vector<std::string> lines;
     std::string line;
-    while (std::getline(std::cin, line)) {
-        if (line.size() < 2) {
-            std::cout << "BADLINE\n";
-            continue;
+    while (std::getline(std::cin, line))
+        lines.push_back(line);
+    size_t start = 0;
+    while (start < lines.size()) {
+        int fd[2];
+        if (pipe(fd) != 0)
+            return 2;
+        fflush(stdout);
+        pid_t pid = fork();
+        if (pid == 0) {
+            close(fd[0]);
+            struct rlimit rl;
+            rl.rlim_cur = rl.rlim_max = 0;
+            setrlimit(RLIMIT_CORE, &rl);
+            g_fd = fd[1];
+            for (size_t i = start; i < lines.size(); i++) {
+                alarm(lines[i].size() > 0 && lines[i][0] == 'P' ? 120 : 20);
+                process_line(lines[i]);
+                emit("\n");
+            }
+            close(fd[1]);
+            _exit(0);
         }
-        std::string body = line.substr(2);
-        if (line[0] == 'T') {
-            std::cout << run_streaming([&]() { mode_trace(body); }, 20) << "\n";
-        } else if (line[0] == 'P') {
-            std::cout << verif::run_forked([&]() { return mode_perm(body); }, 120) << "\n";
-        } else if (line[0] == 'V') {
-            std::cout << verif::run_forked([&]() { return mode_value(body); }, 20) << "\n";
-        } else {
-            std::cout << "BADLINE\n";
+        close(fd[1]);
+        std::string out;
+        char buf[65536];
+        ssize_t r;
+        size_t done = 0;
+        while ((r = read(fd[0], buf, sizeof buf)) > 0) {
+            out.append(buf, (size_t)r);
+            size_t pos;
+            while ((pos = out.find('\n')) != std::string::npos) {
+                std::cout << out.substr(0, pos) << "\n";
+                out.erase(0, pos + 1);
+                done++;
+            }
         }
-        std::cout.flush();
+        close(fd[0]);
+        int status = 0;
+        waitpid(pid, &status, 0);
+        if (start + done >= lines.size())
+            break;
+        // the child died while processing line start+done
+        std::string how = "CRASH:?";
+        if (WIFSIGNALED(status)) {
+            int sig = WTERMSIG(status);
+            how = sig == SIGALRM ? "HANG" : "CRASH:" + std::to_string(sig);
+        } else if (WIFEXITED(status)) {
+            how = "EXIT:" + std::to_string(WEXITSTATUS(status));
+        }
+        std::cout << out << how << "\n";
+        start = start + done + 1;
     }
+    std::cout.flush();
     return 0;
 }
